@@ -1515,7 +1515,9 @@ def replay(ctx, rp):
         obs, bad = _law_replay(contexts()[case["year"]], case)
         return {"case": {k: case.get(k) for k in ("year", "a", "b", "law", "exprs")}, "implementation": obs, "oracle": f"law {case['law']} violated" if bad else None, "fails": bool(bad)}
     out, bad = _rejudge(ctx, case)
-    return {"case": {k: case[k] for k in ("year", "a", "b")}, "implementation": out, "oracle": bad[0] if bad else None, "fails": bool(bad)}
+    # `details` (as in a normal run) lets the known-finding matcher recognise a replayed instance of C03-prefixed-bridge
+    return {"case": {k: case[k] for k in ("year", "a", "b")}, "implementation": out, "oracle": bad[0] if bad else None,
+            "details": (bad[1] if bad and len(bad) > 1 else None), "fails": bool(bad)}
 
 
 def _known_prefixed_bridge(f):
